@@ -259,3 +259,5 @@ func laneP_C10(t *testing.T, plan *Plan, w *World, sink *Sink) {
 		}()
 	}
 }
+
+func removeAll(dir string) { os.RemoveAll(dir) }
